@@ -4,6 +4,7 @@ package tools
 
 import (
 	"fmt"
+	"io"
 	"os"
 	"strconv"
 	"strings"
@@ -67,4 +68,41 @@ func VerifTrace(event string, args ...interface{}) {
 	if verifTraceF != nil {
 		fmt.Fprintf(verifTraceF, "%s %s\n", event, strings.TrimSpace(fmt.Sprintln(args...)))
 	}
+}
+
+// VerifFs marks one storage-mutating step (create, rename, link, unlink) about
+// to be performed on dst (or src for unlink): it is traced with its paths and
+// is a crash point named "<op>.<area of the path under .git/lfs>".
+func VerifFs(op, src, dst string) {
+	if os.Getenv("VERIF_CRASH") == "" && os.Getenv("VERIF_CRASH_LOG") == "" && os.Getenv("VERIF_TRACE") == "" {
+		return
+	}
+	p := dst
+	if p == "" {
+		p = src
+	}
+	area := "other"
+	for _, a := range []string{"objects", "incomplete", "tmp", "bad", "cache"} {
+		if strings.Contains(p, "/lfs/"+a+"/") {
+			area = a
+			break
+		}
+	}
+	VerifTrace("fs."+op, src, dst)
+	VerifCrash(op + "." + area)
+}
+
+type verifWriter struct{ w io.Writer }
+
+func (v verifWriter) Write(p []byte) (int, error) {
+	VerifCrash("write")
+	return v.w.Write(p)
+}
+
+// VerifWriter makes every write burst of a copy a crash point.
+func VerifWriter(w io.Writer) io.Writer {
+	if os.Getenv("VERIF_CRASH") == "" && os.Getenv("VERIF_CRASH_LOG") == "" {
+		return w
+	}
+	return verifWriter{w}
 }
